@@ -57,7 +57,7 @@ def main():
     if two_d:
         shape = [ival(model, 'n_traces'), ival(model, 'n_samples')]
     else:
-        shape = [ival(model, 'n_ilines'), ival(model, 'n_xlines'), ival(model, 'n_samples')]
+        shape = [ival(model, 'n_ilines', 'source.n_ilines'), ival(model, 'n_xlines', 'source.n_xlines'), ival(model, 'n_samples')]
     if any(s is None or s < 1 for s in shape):
         print(json.dumps({'reproduced': None, 'detail': f'model has no usable cube shape: {shape}'}))
         return
@@ -74,6 +74,9 @@ def main():
         return
     if qual.startswith('SgzCropper.'):
         print(json.dumps(replay_crop(model, shape, rate, b), default=str))
+        return
+    if method in ('seismic_file_producer', 'seismic_file_producer_2d', 'io_thread_func', 'io_thread_func_2d') or (method == 'make_header' and 'window' in var):
+        print(json.dumps(replay_segy_route(model, rate, b, two_d, var), default=str))
         return
     if method in ('make_header', 'numpy_producer'):
         print(json.dumps(replay_writer(model, rate, b, two_d, var), default=str))
@@ -321,6 +324,88 @@ def replay_writer(model, rate, b, two_d, var):
     finally:
         shutil.rmtree(d, ignore_errors=True)
     return {'reproduced': bool(probs), 'detail': probs or 'file conforms', 'case': {'shape': shape, 'rate': rate, 'blockshape': b, 'ilines': il[:3], 'xlines': xl[:3]}}
+
+
+def replay_segy_route(model, rate, b, two_d, var):
+    """write a SEG-Y with the model's shape (and window), convert it through the real SEG-Y route (both readers), and check the
+    SGZ against the specification: hash = SHA-1 of the (windowed) source samples, spec decode = ZFP image of the edge-replicated
+    (windowed) source, stored header arrays = the headers of the (windowed) traces, axes of the window"""
+    import tempfile, shutil, hashlib
+    import numpy as np
+    from oracle import specsgz as S, segygen as G
+    g = lambda *n: ival(model, *n)
+    d = tempfile.mkdtemp(prefix='verif_sr_')
+    probs = []
+    case = {}
+    try:
+        from seismic_zfp.conversion import SegyConverter
+        from seismic_zfp.read import SgzReader
+        rng = np.random.default_rng(1)
+        if two_d:
+            nT, nZ = g('n_traces') or 5, g('n_samples') or 5
+            nT, nZ = min(max(nT, 2), 200), min(max(nZ, 2), 3 * b[2] + 3)
+            sec = rng.standard_normal((nT, nZ)).astype(np.float32)
+            cdp = (1000 + 3 * np.arange(nT)).astype(np.int32)
+            G.write_segy(d + '/s.sgy', sec, None, None, two_d=True, extra_headers={181: cdp, 185: cdp[::-1].copy()})
+            case = dict(n_traces=nT, n_samples=nZ, rate=rate, blockshape=b)
+            with G.LibVersion('0.2.8'):
+                with SegyConverter(d + '/s.sgy') as c:
+                    c.run(d + '/o.sgz', bits_per_voxel=rate, blockshape=tuple(b))
+            buf = open(d + '/o.sgz', 'rb').read()
+            if bytes(buf[960:980]) != hashlib.sha1(sec.tobytes()).digest():
+                probs.append('stored hash is not the SHA-1 of the source samples in trace order')
+            dec = S.decode(buf)
+            exp = S.expected_readback(sec, rate, tuple(b))
+            if dec['volume'].shape != exp.shape or not np.array_equal(dec['volume'], exp):
+                probs.append('spec decode of the written file differs from the 2-D ZFP image of the edge-replicated section')
+            with SgzReader(d + '/o.sgz') as r:
+                hv = r.get_tracefield_values(181) if hasattr(r, 'get_tracefield_values') else None
+                if hv is not None and list(np.asarray(hv).ravel()) != list(cdp):
+                    probs.append('CDP_X header array read back differs from the source headers')
+            return {'reproduced': bool(probs), 'detail': probs or 'file conforms', 'case': case}
+        nI, nX, nZ = g('source.n_ilines', 'n_ilines') or 5, g('source.n_xlines', 'n_xlines') or 5, g('n_samples') or 5
+        nI, nX, nZ = min(max(nI, 2), 24), min(max(nX, 2), 24), min(max(nZ, 2), 3 * b[2] + 3)
+        wi, wx = g('window.first_inline_ordinal') or 0, g('window.first_crossline_ordinal') or 0
+        nIw, nXw = g('window.n_ilines') or nI, g('window.n_xlines') or nX
+        wi, wx = min(wi, nI - 2), min(wx, nX - 2)
+        nIw, nXw = max(2, min(nIw, nI - wi)), max(2, min(nXw, nX - wx))
+        il = [10 + 2 * k for k in range(nI)]; xl = [300 + 3 * k for k in range(nX)]
+        cube = rng.standard_normal((nI, nX, nZ)).astype(np.float32)
+        cdp = (7 * np.arange(nI * nX) + 1).astype(np.int32)
+        G.write_segy(d + '/s.sgy', cube, il, xl, extra_headers={21: cdp})
+        windowed = not (wi == 0 and wx == 0 and nIw == nI and nXw == nX)
+        sub_cube = cube[wi:wi + nIw, wx:wx + nXw]
+        case = dict(shape=[nI, nX, nZ], window=[wi, wi + nIw, wx, wx + nXw], rate=rate, blockshape=b)
+        for reduce_iops in (False, True):
+            out = d + f'/o{int(reduce_iops)}.sgz'
+            tag = 'reduce_iops' if reduce_iops else 'segyio'
+            with G.LibVersion('0.2.8'):
+                kw = dict(min_il=wi, max_il=wi + nIw, min_xl=wx, max_xl=wx + nXw) if windowed else {}
+                with SegyConverter(d + '/s.sgy', **kw) as c:
+                    import warnings
+                    with warnings.catch_warnings():
+                        warnings.simplefilter('ignore')
+                        c.run(out, bits_per_voxel=rate, blockshape=tuple(b), reduce_iops=reduce_iops)
+            buf = open(out, 'rb').read()
+            if bytes(buf[960:980]) != hashlib.sha1(np.ascontiguousarray(sub_cube).tobytes()).digest():
+                probs.append(f'[{tag}] stored hash is not the SHA-1 of the (windowed) source samples in trace order')
+            dec = S.decode(buf)
+            exp = S.expected_readback(np.ascontiguousarray(sub_cube), rate, tuple(b))
+            if dec['volume'].shape != exp.shape or not np.array_equal(dec['volume'], exp):
+                probs.append(f'[{tag}] spec decode differs from the ZFP image of the edge-replicated (windowed) source')
+            with SgzReader(out) as r:
+                if list(r.ilines) != il[wi:wi + nIw] or list(r.xlines) != xl[wx:wx + nXw]:
+                    probs.append(f'[{tag}] reader axes {list(r.ilines)[:3]}../{list(r.xlines)[:3]}.. are not those of the window')
+                want = cdp.reshape(nI, nX)[wi:wi + nIw, wx:wx + nXw]
+                got = np.array([r.gen_trace_header(t)[21] for t in range(nIw * nXw)]).reshape(nIw, nXw)
+                if not np.array_equal(got, want):
+                    probs.append(f'[{tag}] CDP header of the converted traces differs from the source headers of the window')
+    except Exception as e:
+        import traceback
+        probs.append(f'{type(e).__name__}: {e} @ {traceback.format_exc().splitlines()[-3].strip()}')
+    finally:
+        shutil.rmtree(d, ignore_errors=True)
+    return {'reproduced': bool(probs), 'detail': probs or 'file conforms', 'case': case}
 
 
 def replay_axes_reader(model):
